@@ -29,6 +29,7 @@ package main
 
 import (
 	"fmt"
+	"go/token"
 	"go/types"
 	"math/big"
 	"sort"
@@ -233,6 +234,12 @@ func (e *Encoder) ghostAction(text string, st *State, pc string) {
 	u64 := types.Typ[types.Uint64]
 	c := e.c
 	one := c.lit(u64, bigOne)
+	for _, li := range e.loops {
+		if li.body[e.curBlk] {
+			e.errs = append(e.errs, fmt.Sprintf("ghost action %q inside a loop is not supported (tokens are assumed unchanged by loops)", text))
+			return
+		}
+	}
 	for _, act := range strings.Split(text, ";") {
 		f := strings.Fields(act)
 		if len(f) == 0 {
@@ -384,9 +391,17 @@ func (e *Encoder) condCall(name string, cm *ssa.CallCommon, st *State, pc string
 	return true
 }
 
-// goUnderLock: a `go` statement while monitors are held. The heap is havoc'd except the scalar protected cells,
-// the ghost counters of the held monitors, this thread's tokens and the section snapshot.
+// goUnderLock: a `go` statement while monitors are held: a plain heap havoc (which keeps what saveHeldState keeps).
 func (e *Encoder) goUnderLock(st *State, pc string) {
+	e.havocAll(st, "go statement inside a critical section (protected state of the held monitors is kept)")
+}
+
+// saveHeldState records, before a heap havoc, what no callee and no other thread can change: this thread's
+// ghost tokens (always), and - for the monitors held at this point - the scalar protected cells, the ghost
+// counters and the critical-section snapshot. The returned function restores them after the havoc.
+// (A callee that touches protected fields would have to hold the lock itself - impossible while this thread
+// holds it - or be a `holds` function, which is under contract and not havoc'd; see the lockset audit.)
+func (e *Encoder) saveHeldState(st *State) func() {
 	type keep struct {
 		loc string
 		t   types.Type
@@ -394,66 +409,121 @@ func (e *Encoder) goUnderLock(st *State, pc string) {
 	}
 	var keeps []keep
 	pre := st.clone()
-	for _, h := range e.held {
+	held := append([]heldMonitor(nil), e.held...)
+	for _, h := range held {
 		env := e.monitorEnv(h.mr, h.recv, pre)
-		for i, m := range h.mr.m.Protects {
+		for _, m := range h.mr.m.Protects {
 			func() {
 				defer func() {
 					if r := recover(); r != nil {
 						if _, ok := r.(elabErr); ok {
-							e.errs = append(e.errs, fmt.Sprintf("go statement under %s.%s: protected location %q cannot be preserved", h.mr.m.TypeName, h.mr.m.MuField, h.mr.m.ProtText[i]))
-							return
+							return // (element ranges: not kept, they stay havoc'd)
 						}
 						panic(r)
 					}
 				}()
+				if call, ok := m.(*ECall); ok {
+					if id, ok := call.Fun.(*EIdent); ok && (id.Name == "elems" || id.Name == "object") {
+						return
+					}
+				}
 				loc, t, ok := env.addr(m)
 				if !ok {
-					e.errs = append(e.errs, fmt.Sprintf("go statement under %s.%s: protected location %q cannot be preserved", h.mr.m.TypeName, h.mr.m.MuField, h.mr.m.ProtText[i]))
 					return
 				}
 				keeps = append(keeps, keep{loc, t, e.load(pre, loc, t).S})
 			}()
 		}
 	}
-	saved := map[string]string{}
-	for k, v := range pre.mem {
-		if strings.HasPrefix(k, "tok.") || strings.HasPrefix(k, "snap.") || k == ghostCtrKey {
-			saved[k] = v
-		}
-	}
-	var tokNames []string
-	for _, h := range e.held {
-		tokNames = append(tokNames, h.mr.m.Counters...)
-	}
-	tokVals := map[string]string{}
-	for _, n := range tokNames {
-		tokVals[n] = e.token(pre, n)
-	}
-	ctrVals := map[int]map[int]string{}
-	for hi, h := range e.held {
-		ctrVals[hi] = map[int]string{}
-		for i := range h.mr.m.Counters {
-			ctrVals[hi][i] = e.ctrTotal(pre, h.recv, i)
-		}
-	}
-	e.havocAll(st, "go statement inside a critical section (protected state of the held monitors is kept)")
-	for _, k := range keeps {
-		e.store(st, k.loc, k.t, k.v)
-	}
-	for k, v := range saved {
+	var snapKeys []string
+	for k := range pre.mem {
 		if strings.HasPrefix(k, "snap.") {
-			st.mem[k] = v
+			snapKeys = append(snapKeys, k)
 		}
 	}
-	for n, v := range tokVals {
-		e.setToken(st, n, v)
+	sort.Strings(snapKeys)
+	// tokens of every counter of every monitor of the program (thread-local ghost state)
+	var tokNames []string
+	for _, mr := range e.prog.monitors {
+		if e.fc != nil && sharesProp(e.fc.Props, mr.m.Props) {
+			tokNames = append(tokNames, mr.m.Counters...)
+		}
 	}
-	for hi, h := range e.held {
+	tokVals := make([]string, len(tokNames))
+	for i, n := range tokNames {
+		tokVals[i] = e.token(pre, n)
+	}
+	type cv struct {
+		recv Val
+		idx  int
+		v    string
+	}
+	var ctrs []cv
+	for _, h := range held {
 		for i := range h.mr.m.Counters {
-			e.setCtrTotal(st, h.recv, i, ctrVals[hi][i])
+			ctrs = append(ctrs, cv{h.recv, i, e.ctrTotal(pre, h.recv, i)})
 		}
 	}
+	return func() {
+		for _, k := range keeps {
+			e.store(st, k.loc, k.t, k.v)
+		}
+		if len(held) > 0 {
+			for _, k := range snapKeys {
+				st.mem[k] = pre.mem[k]
+			}
+		}
+		for i, n := range tokNames {
+			e.setToken(st, n, tokVals[i])
+		}
+		for _, c := range ctrs {
+			e.setCtrTotal(st, c.recv, c.idx, c.v)
+		}
+	}
+}
+
+type frozenLoc struct {
+	loc string
+	t   types.Type
+}
+
+// saveTokens: this thread's ghost tokens survive a havoc that stands for code without ghost actions.
+func (e *Encoder) saveTokens(st *State) func() {
+	var names []string
+	for _, mr := range e.prog.monitors {
+		if e.fc != nil && sharesProp(e.fc.Props, mr.m.Props) {
+			names = append(names, mr.m.Counters...)
+		}
+	}
+	vals := make([]string, len(names))
+	for i, n := range names {
+		vals[i] = e.token(st, n)
+	}
+	return func() {
+		for i, n := range names {
+			e.setToken(st, n, vals[i])
+		}
+	}
+}
+
+// loopWaitsBlocks: some block of the set waits on a monitored condition variable.
+func (e *Encoder) loopWaitsBlocks(blocks map[*ssa.BasicBlock]bool) bool {
+	for b := range blocks {
+		for _, in := range b.Instrs {
+			call, ok := in.(*ssa.Call)
+			if !ok {
+				continue
+			}
+			callee := call.Common().StaticCallee()
+			if callee == nil || callee.String() != "(*sync.Cond).Wait" || len(call.Common().Args) == 0 {
+				continue
+			}
+			if mr, _ := e.prog.condOwner(call.Common().Args[0]); e.monitorActive(mr) {
+				return true
+			}
+		}
+	}
+	return false
 }
 
 // monitorLoopObls: the invariants of the held monitors as obligations at the entry / back edge of a loop that waits.
@@ -520,6 +590,17 @@ func sameAddr(a, b ssa.Value) bool {
 	fb, ok2 := b.(*ssa.FieldAddr)
 	if ok1 && ok2 {
 		return fa.Field == fb.Field && types.Identical(fa.X.Type(), fb.X.Type()) && sameAddr(fa.X, fb.X)
+	}
+	// two loads of the same variable that is assigned once and never again (a captured `p := &cl.producer`)
+	ua, ok1 := a.(*ssa.UnOp)
+	ub, ok2 := b.(*ssa.UnOp)
+	if ok1 && ok2 && ua.Op == token.MUL && ub.Op == token.MUL && ua.X == ub.X {
+		switch x := ua.X.(type) {
+		case *ssa.FreeVar:
+			return immutableFreeVar(ua.Parent(), x)
+		case *ssa.Alloc:
+			return singleStoreAlloc(x)
+		}
 	}
 	return false
 }
